@@ -1,9 +1,9 @@
 SPECIFICATION Spec
 CONSTANTS
-  P = 7
-  NBits = 3
+  P = 5
+  NBits = 2
   BoolEnforced = TRUE
-  Unchecked = {}
+  Unchecked = {1}
   RangeChecked = FALSE
 INVARIANTS
   EmitReplay
